@@ -2,8 +2,9 @@ SPECIFICATION Spec
 CONSTANTS
   MaxSrv = 4
   MaxCli = 3
+  ReqBuf = 16
   Cfgs <- AllCfgs
   Lite = "lite"
-INVARIANTS TypeOK S1_ExitResult S2_Conservation S2_NoDataLoss S3_StartOnce S5_StdinEOF S6_StartFailure S7_ReplyValue S8_NoStuckCall
+INVARIANTS TypeOK S1_ExitResult S2_Conservation S2_NoDataLoss S3_StartOnce S5_StdinEOF S6_StartFailure S7_ReplyValue S8_NoStuckCall S9_NoStall
 VIEW View
 CHECK_DEADLOCK FALSE
